@@ -36,6 +36,7 @@ type semapCtx struct {
 
 func runC01(c *Ctx) {
 	const rel = "syncx/semap"
+	c.checkOptionTargets("C01.weights", rel)
 	s := &semapCtx{c: c}
 	s.size = c.mustField(rel, "Weighted", "size")
 	s.cur = c.mustField(rel, "Weighted", "cur")
